@@ -1,4 +1,4 @@
-US = ['set_up_run.0:4', 'words_init.0:19', 'words_init.1:19', 'word_of_token.0:12', 'txt_cat.0:15', 'body_stream.0:32',
+US = ['set_up_run.0:4', 'words_init.0:19', 'words_init.1:19', 'word_of_token.0:12', 'txt_cat.0:15', 'body_stream.0:32', 'body_filtered.0:32', 'body_filtered.1:8', 'body_filtered.2:4', 'drive_and_check.0:4', 'drive_and_check.1:4',
       'env_fputs.0:37',                                      # literals / stack buffers handed to fputs: longest literal has 35 characters
       'env_fputs.1:4',                                       # heap strings handed to fputs: numbers of at most 2 digits (proved by the unwinding assertion)
       '_ZN18TeamCityTestOutput12printEscapedEPKc.0:4']       # escaped texts: at most 2 characters (proved by the unwinding assertion)
@@ -25,6 +25,8 @@ SPEC = {
             [ob('harness_escape_roundtrip', unwind=12, timeout=300, unwindset=[], bounds='printEscaped on any text of <= 4 bytes over the full byte range')] +
             [ob('harness_stream_1_%d' % k, bounds='run of 1 test that %s; ' % K[k] + F, **({'solver': 'kissat'} if k == 1 else {})) for k in range(3)] +
             [ob('finding_empty_group', expect='fail', bounds='one passing test in a group named "" (open known finding KF-C20-2)')] +
+            [ob('harness_filtered_2_last', tier='quick', bounds='run of 2 passing tests with a name filter that filters the LAST one out (same or different group decided by the symbolic names); ' + F)] +
+            [ob('harness_filtered_3_middle', tier='thorough', timeout=3600, bounds='run of 3 passing tests with a name filter that filters the middle one out; ' + F)] +
             [ob('harness_stream_2_00', tier='quick', bounds='run of 2 passing tests (same or different group decided by the symbolic names); ' + F)] +
             [ob('harness_stream_2_%d%d' % (a, b), tier='thorough', timeout=3600, solver='kissat',
                 bounds='run of 2 tests (same or different group decided by the symbolic names): the first %s, the second %s; ' % (K[a], K[b]) + F) for a in range(3) for b in range(3) if (a, b) != (0, 0)] +
